@@ -739,6 +739,45 @@ theorem aborted_collection_leaves_no_provisional_delegation (outs : List NSAddr)
 example : lookupV4NssProv [.found, .found, .failed .workLimit, .found] false none false = (.error .workLimit, false) := by decide
 example : lookupV4NssProv [.found, .failed .loadShed, .found] false none false = (.servers, true) := by decide
 
+/-- **The failover route keeps request-local provenance, and recovery through a
+fallback is a recovery.** When the primary path's SERVFAIL was request-local
+and no fallback server helps, the cache writer leaves the store untouched
+(the failing fallback's response inherits the mark; the cache's own probe shed
+never engages the fallback at all). When a fallback answers, the client's
+question is reset exactly as after any useful answer. -/
+theorem failover_route_admission (H : Hash) (s : Store) (now : Int) (k : QKey) (c : Cause)
+    (hc : c.isRequestLocal = true) :
+    (∀ fb, fb = Upstream.servfail ∨ fb = Upstream.refused ∨ (∃ c', fb = Upstream.localFail c') →
+        s.serveViaFailover H now k (.localFail c) fb = s) ∧
+    (failoverWrite (.localFail .probeLimit) .useful).fallbackAsked = false ∧
+    (∀ p, p = Upstream.servfail ∨ (∃ c', p = Upstream.localFail c' ∧ c' ≠ .probeLimit) →
+        s.serveViaFailover H now k p .useful = s.writeBackAnswer H now k false) := by
+  have hmark : (Upstream.localFail c).mark = c := by simp [Upstream.mark, hc]
+  refine ⟨?_, by decide, ?_⟩
+  · intro fb hfb
+    have hlocal : ∀ m : Cause, m.isRequestLocal = true →
+        s.writeBackFailure H now ⟨false, false, false, m⟩ k 0 = s :=
+      fun m hm => (local_causes_never_shared ⟨false, false, false, m⟩ (Or.inr (Or.inr (Or.inr hm)))).2 H s now k 0
+    unfold Store.serveViaFailover failoverWrite
+    simp only [hmark]
+    by_cases hp : c = .probeLimit
+    · subst hp; simp; exact hlocal _ (by decide)
+    · simp only [hp, if_false]
+      rcases hfb with rfl | rfl | ⟨c', rfl⟩ <;> simp <;> exact hlocal c hc
+  · intro p hp
+    rcases hp with rfl | ⟨c', rfl, hne⟩
+    · simp [Store.serveViaFailover, failoverWrite, Upstream.mark]
+    · unfold Store.serveViaFailover failoverWrite
+      have : (Upstream.localFail c').mark ≠ .probeLimit := by
+        unfold Upstream.mark; split
+        · exact hne
+        · decide
+      simp [this]
+
+-- non-vacuity: a genuine primary SERVFAIL plus a failing fallback IS filed (under the client's class CH)
+example : (Store.serveViaFailover H1 ⟨false, cfg0, []⟩ 0 ⟨wwwExampleCom, 16, 3, false, none⟩ .servfail .refused).tab.length = 1 := by decide
+example : (Store.serveViaFailover H1 ⟨false, cfg0, []⟩ 0 ⟨wwwExampleCom, 16, 3, false, none⟩ (.localFail .attemptLimit) .refused).tab.length = 0 := by decide
+
 /-! ## the kill switch -/
 
 /-- **rfc9520 off is inert.** With the switch off no Store entry point reads
